@@ -732,6 +732,8 @@ def _expr_kind(rng: Any, kind: str, s: Any, b: Budget, depth: int) -> Any:
         return +a
     if kind == 'sandwich':
         e = expr(rng, s, b, depth + 1)
+        if 'InverseOperator' in _names(e):
+            return e  # transposes of the solver-based inverse are not supported by the library
         t = e.out_structure()
         form = int(rng.integers(3))
         if form == 0:
@@ -742,9 +744,11 @@ def _expr_kind(rng: Any, kind: str, s: Any, b: Budget, depth: int) -> Any:
         return e.T @ mid @ e
     if kind == 'square_T':
         e = expr(rng, s, b, depth + 1)
+        if 'InverseOperator' in _names(e):
+            return e
         if not struct_eq(e.out_structure(), s):
             e = e.T @ e
-        return e.T if 'InverseOperator' not in _names(e) else e
+        return e.T
     if kind == 'blockcol':
         n = int(rng.integers(1, 4))
         if size_of(s) * n > MAX_SIZE:
